@@ -293,7 +293,7 @@ P("C14",
   rule="1..14 ops + final reopen and read of every id; non-trivial = >=1 reopen with >=1 torrent stored; distinct = distinct history",
   assumptions=["bbolt opened with NoSync for speed: durability is C05's subject, not this unit's"],
   units=[
-   U("c14.spec", "c14", "TestSpec", "Write/partial update/reopen/Read == model for every field", Q(6000, 4), T(600000), min_nontrivial_frac=0.4),
+   U("c14.spec", "c14", "TestSpec", "Write/partial update/reopen/Read == model for every field", Q(6000, 4), T(300000), min_nontrivial_frac=0.4),
    U("c14.registry", "c14", "TestRegistry",
      "histories of 3-14 operations (add .torrent / magnet with generated ids, options, tracker tiers and web seeds; invalid metainfo; remove; start; stop; add tracker; upload "
      "traffic to a scripted leecher; 2-6 concurrent adds with one explicit id or generated ids; 3 concurrent removes; compact-and-continue-on-the-compacted-file; close+reopen "
